@@ -36,6 +36,7 @@ class WaterCycleOptimization(OptimizationAbstract):
         self._config = WaterCycleOptimizationConfig(**parameters)
 
     def after_initialization(self):
+        self.__ecc = 1e-6
         n_stream = self._config.population_size - self._config.nsr
         self.__pop_best = self._population[:self._config.nsr]
         pop_stream = self._population[self._config.nsr:]  # Forming Stream
